@@ -2,7 +2,6 @@ package sql
 
 import (
 	"database/sql/driver"
-	"strings"
 
 	"seata.apache.org/seata-go/pkg/datasource/sql/undo"
 	"seata.apache.org/seata-go/pkg/protocol/branch"
@@ -88,9 +87,9 @@ func VerifC01Recorded() {
 // have overwritten that write.
 func VerifC09Recorded() {
 	st := c18Stmts[vrt.Choice("statement", len(c18Stmts))]
-	name := strings.TrimPrefix(st.name, "null-")
-	if !st.valid || strings.HasPrefix(name, "insert-") || strings.HasPrefix(name, "delete-") || strings.HasPrefix(name, "multi-delete") || strings.HasPrefix(name, "upsert-") {
-		return // the insert / delete undo executors validate nothing: recorded findings of VerifC09Foreign
+	name := st.name
+	if !st.valid {
+		return
 	}
 	c18WantNull = c18NullTemplate(st.name)
 	w := c18Setup(st.composite, c18AutoKey(st.name))
@@ -102,7 +101,7 @@ func VerifC09Recorded() {
 	tx, err := w.c.BeginTx(w.ctx, driver.TxOptions{})
 	vrt.Assert(err == nil && tx != nil, "c09/recorded/begin-ok")
 	_, err = w.c.ExecContext(w.ctx, st.query, args)
-	if err != nil || w.d.bad != "" || len(w.d.changedBefore) == 0 {
+	if err != nil || w.d.bad != "" || (len(w.d.changedBefore) == 0 && len(w.d.changedAfter) == 0) {
 		return
 	}
 	befores, afters := w.c.txCtx.RoundImages.BeofreImages(), w.c.txCtx.RoundImages.AfterImages()
@@ -133,7 +132,13 @@ func VerifC09Recorded() {
 		}
 	}
 	// the foreign write: one non-key cell of the first row the branch changed
-	victim := w.d.changedBefore[0]
+	// (a row the branch inserted, when it changed no existing one)
+	var victim aRow
+	if len(w.d.changedBefore) > 0 {
+		victim = w.d.changedBefore[0]
+	} else {
+		victim = w.d.changedAfter[0]
+	}
 	var target *uRow
 	for i := range uw.d.rows {
 		same := true
@@ -146,14 +151,25 @@ func VerifC09Recorded() {
 			target = &uw.d.rows[i]
 		}
 	}
-	if target == nil {
-		return
+	ncols := len(s.cols) - len(s.pk)
+	if m := vrt.Param("foreigncols", 2); m < ncols {
+		ncols = m
 	}
-	col := len(s.cols) - 1 - vrt.Choice("foreign.column", len(s.cols)-len(s.pk))
+	col := len(s.cols) - 1 - vrt.Choice("foreign.column", ncols)
 	if s.isPK(col) {
 		return
 	}
 	foreign := vrt.Int64("foreign.value")
+	if target == nil {
+		// the branch deleted the row: somebody has used the key again since, with other data
+		vrt.Reach("c09/recorded/key-reused")
+		cells := make([]driver.Value, len(victim.cells))
+		for k := range victim.cells {
+			cells[k] = victim.get(k)
+		}
+		uw.d.rows = append(uw.d.rows, uRow{cells: cells, present: true})
+		target = &uw.d.rows[len(uw.d.rows)-1]
+	}
 	vrt.Assume(driver.Value(foreign) != target.cells[col])
 	target.cells[col] = foreign
 	key := pkVals(*target, s)
